@@ -75,7 +75,7 @@ Proof. exact accepts_domain_kFlowDecomp. Qed.
 Print Assumptions C19_accepts_domain_kFlowDecomp.
 
 (* ---------------------------------------------------------------- MinFlowDecomp *)
-Theorem C19_validate_sound_MinFlowDecomp : forall i, has_live i = true -> validate_MinFlowDecomp i = RaiseValueError -> in_domain_MinFlowDecomp i = false.
+Theorem C19_validate_sound_MinFlowDecomp : forall i, validate_MinFlowDecomp i = RaiseValueError -> in_domain_MinFlowDecomp i = false.
 Proof. exact validate_sound_MinFlowDecomp. Qed.
 Print Assumptions C19_validate_sound_MinFlowDecomp.
 
@@ -122,7 +122,7 @@ Theorem C19_validate_complete_kPathCover : forall i, in_domain_kPathCover i = fa
 Proof. exact validate_complete_kPathCover. Qed.
 Print Assumptions C19_validate_complete_kPathCover.
 
-Theorem C19_accepts_domain_kPathCover : forall i, in_domain_kPathCover i = true -> origin i = OEdge -> validate_kPathCover i = Accept.
+Theorem C19_accepts_domain_kPathCover : forall i, in_domain_kPathCover i = true -> validate_kPathCover i = Accept.
 Proof. exact accepts_domain_kPathCover. Qed.
 Print Assumptions C19_accepts_domain_kPathCover.
 
@@ -297,11 +297,7 @@ Theorem C19_validate_kFlowDecompCycles_refuted_k_float :
   exists i, in_domain_kFlowDecompCycles i = false /\ validate_kFlowDecompCycles i = RaiseOther EType.
 Proof. exact validate_kFlowDecompCycles_refuted_k_float. Qed.
 Print Assumptions C19_validate_kFlowDecompCycles_refuted_k_float.
-(* kPathCover:TypeError:cover_type=node (DESIGN #4), kPathCover:accepted-unsolved:k<=0 (DESIGN #17) *)
-Theorem C19_accepts_domain_kPathCover_refuted_node_mode :
-  exists i, in_domain_kPathCover i = true /\ has_live i = true /\ validate_kPathCover i = RaiseOther EType.
-Proof. exact accepts_domain_kPathCover_refuted_node_mode. Qed.
-Print Assumptions C19_accepts_domain_kPathCover_refuted_node_mode.
+(* kPathCover:accepted-unsolved:k<=0 (DESIGN #17) *)
 Theorem C19_validate_kPathCover_refuted_k0 :
   exists i, in_domain_kPathCover i = false /\ validate_kPathCover i = AcceptsButUnsolved.
 Proof. exact validate_kPathCover_refuted_k0. Qed.
